@@ -646,7 +646,11 @@ META_C02 = {
             "model (the real VBK/BTC trees below the command interface, finalization, altchain invalidate/revalidate, the tip "
             "candidate set) the property is checked on the implementation: full ALT/VBK/BTC snapshot before/after every call "
             "with the allowance of DESIGN section 7 under enumeration of the failing group position, and the step-by-step "
-            "correspondence with the extracted model.",
+            "correspondence with the extracted model. Histories include planted VTBs failing inside their command group, "
+            "exactly tied VBK forks and exactly tied BTC forks moved by the target before its planted failure. Accepted "
+            "validity mark: the cached validity LEVEL of a VBK/BTC block may differ before/after (failure flags, ACTIVE and "
+            "all other fields are compared exactly; witness corpus/C02/sp_fork_level_raised.json). Open finding reported "
+            "under key C02:btc-tip-not-restored-on-tie (witness corpus/C02/btc_tip_not_restored_on_tie.json).",
     "note": _NOTE, "technique": _TECH,
 }
 META_C01 = {
